@@ -14,27 +14,8 @@ import vlib
 
 
 def repo_override(ctx):
-    repo = os.path.realpath(vlib.REPO)
-    if repo == "/repo":
-        return
-    alt = os.path.join(vlib.BUILD, "harness-alt")
-    os.makedirs(alt, exist_ok=True)
-    # sources: keep mtimes so cargo only rebuilds what changed
-    vlib.sh(["rsync", "-a", "--delete", "--exclude", ".cargo", "--exclude", "Cargo.toml", os.path.join(vlib.HARNESS, ""), alt + "/"])
-    man = open(os.path.join(vlib.HARNESS, "Cargo.toml")).read()
-    man2 = re.sub(r'path = "/repo/', f'path = "{repo}/', man)
-    p = os.path.join(alt, "Cargo.toml")
-    if not os.path.exists(p) or open(p).read() != man2:
-        open(p, "w").write(man2)
-    os.makedirs(os.path.join(alt, ".cargo"), exist_ok=True)
-    cfg = '[net]\noffline = true\n[build]\ntarget-dir = "../target-alt"\n'
-    p = os.path.join(alt, ".cargo", "config.toml")
-    if not os.path.exists(p) or open(p).read() != cfg:
-        open(p, "w").write(cfg)
-    vlib.HARNESS = alt
-    vlib.TARGET = os.path.join(vlib.BUILD, "target-alt")
-    ctx.log(f"VERIF_REPO={repo}: harness built from {alt} into {vlib.TARGET}")
-    ctx.notes.append(f"checked against VERIF_REPO={repo} (not /repo)")
+    """kept for callers: the override now happens in vlib.Ctx (every check honours VERIF_REPO)"""
+    vlib.repo_override(ctx.log)
 
 
 def tree_hash(paths):
